@@ -16,7 +16,8 @@ EXPLANATION = ("Ordering mechanism of the backend. R1: one clock read (ts_now) p
                "non-empty queue' before each dispatch; that predicate covers both queue kinds. R5: the log call reads the clock "
                "before the reservation (and the blocking loop) and the header carries exactly that value."
                ' R4d: the pending-events scan runs over a freshly reloaded thread-context cache. R5f: the TSC converter is published with release and read with acquire.'
-               " R3d: while no context is chosen the first buffered candidate is taken whatever its timestamp. R7a-e: the two-slot hand-over inside the TSC converter (RdtscClock): resync fills the slot the next conversion reads ((version + K) & mask, published by adding K, mask = slots - 1), completely and before the release update, only from a sample taken within the accepted lag; the lock-free reader retries until the version it derived the slot from is unchanged (acquire loads); the backend's conversion resynchronises exactly when the interval is exceeded. R8 (= C20.R4): the read position is handed back on the pass that switches nodes.")
+               " R3d: while no context is chosen the first buffered candidate is taken whatever its timestamp. R7a-e: the two-slot hand-over inside the TSC converter (RdtscClock): resync fills the slot the next conversion reads ((version + K) & mask, published by adding K, mask = slots - 1), completely and before the release update, only from a sample taken within the accepted lag; the lock-free reader retries until the version it derived the slot from is unchanged (acquire loads); the backend's conversion resynchronises exactly when the interval is exceeded. R8 (= C20.R4): the read position is handed back on the pass that switches nodes."
+               ' R9: the per-queue read loop ends only because the queue is empty, the head statement is held back, or the per-pass limits were reached.')
 NOT_DECIDED = ("The ordering theorem itself over all schedules (needs a model of time), accuracy of the TSC<->epoch conversion, "
                "backtrace replays (documented exception).")
 ASSUMPTIONS = ["per-thread FIFO (C01-C03)"]
